@@ -576,3 +576,30 @@ def check_pinch_roles(ctx: CheckContext, p: Program, r: Resolver, funcs: List[Fu
                             n += 1
                             ctx.ob(rule, f"{f.qualname}:setter", f.loc, a == b, "" if a == b else f"setter of {nm} ({a}) stores into {st.targets[0].attr} ({b})")
     return n
+
+
+def check_symmetric_collapse(ctx: CheckContext, p: Program, r: Resolver, funcs: List[FuncInfo], rule: str = "ROLE-SYM"):
+    """A tolerance test that decides whether the hot and the cold pinch coincide must be symmetric: abs(hot - cold) < tol."""
+    ctx.rule(rule, "a tolerance comparison of the difference between a hot and a cold pinch value is taken on abs(...): a one-sided test collapses every "
+                   "record whose pinches are in the usual order")
+    n = 0
+    for f in funcs:
+        if isinstance(f.node, ast.Lambda):
+            continue
+        for node in body_nodes(f):
+            if not (isinstance(node, ast.Compare) and len(node.ops) == 1 and isinstance(node.ops[0], (ast.Lt, ast.LtE, ast.Gt, ast.GtE))):
+                continue
+            for side in (node.left, node.comparators[0]):
+                inner, has_abs = side, False
+                if isinstance(side, ast.Call) and isinstance(side.func, ast.Name) and side.func.id == "abs" and side.args:
+                    inner, has_abs = side.args[0], True
+                elif isinstance(side, ast.Call) and isinstance(side.func, ast.Attribute) and side.func.attr in ("abs", "fabs", "isclose") and side.args:
+                    inner, has_abs = side.args[0], True
+                if isinstance(inner, ast.BinOp) and isinstance(inner.op, ast.Sub):
+                    la, lb_ = ast.unparse(inner.left), ast.unparse(inner.right)
+                    if _pinchy(la) and _pinchy(lb_) and {expr_role(inner.left), expr_role(inner.right)} == {"hot", "cold"}:
+                        n += 1
+                        ctx.ob(rule, f"{f.qualname}:{norm_stmt(node)}", f"{f.module.relpath}:{node.lineno}", has_abs,
+                               "" if has_abs else f"`{ast.unparse(node)}` compares a signed hot/cold pinch difference with a tolerance: it is true for every record "
+                                                  f"whose difference has that sign, so distinct pinches are reported as one")
+    return n
